@@ -276,6 +276,7 @@ macro_rules! lab_harness {
 }
 // concrete kinds, elevation labels and type codes; symbolic azimuth angles
 lab_harness!(c14_lab_r1r1r2r1, 4, [0, 0, 0, 0], [1, 1, 2, 1], [0, 0, 0, 0], 8);
+lab_harness!(c14_lab_r1r2r1r1, 4, [0, 0, 0, 0], [1, 2, 1, 1], [0, 0, 0, 0], 8);
 lab_harness!(c14_lab_r1o13o13r1, 4, [0, 3, 3, 0], [1, 0, 0, 1], [0, 13, 13, 0], 8);
 lab_harness!(c14_lab_sr3r3v, 4, [1, 0, 0, 2], [0, 3, 3, 0], [0, 0, 0, 0], 8);
 lab_harness!(c14_lab_o7o9r0r0, 4, [3, 3, 0, 0], [0, 0, 0, 0], [7, 9, 0, 0], 8);
